@@ -384,6 +384,15 @@ func timerCallbackBody(interval bool, op string, atTick int, slowCb bool) vsched
 			vsched.GoNamed("other", func() {
 				vsched.SleepUntil(time.Duration(atTick*tPeriod) * tUnit)
 				vsched.WaitFor(0, "wait-callback-running", func() bool { return inCb })
+				if op == "refresh+stop" {
+					// refreshed while the callback runs, cancelled one unit later (before the new due instant)
+					tm.Refresh()
+					vsched.Close(gate)
+					vsched.Sleep(tUnit)
+					tm.Stop()
+					returned++
+					return
+				}
 				do()
 				vsched.Close(gate)
 			})
@@ -403,6 +412,9 @@ func timerCallbackBody(interval bool, op string, atTick int, slowCb bool) vsched
 					if op == "refresh" {
 						ref.due = t + tPeriod
 					}
+					if op == "refresh+stop" {
+						ref.due = -1 // refreshed at t, cancelled at t+1, before t+period
+					}
 				}
 			}
 		}
@@ -415,13 +427,16 @@ func init() {
 	register("C19", "callback", false, func(c *Ctx) {
 		n := 0
 		for _, interval := range []bool{false, true} {
-			for _, op := range []string{"stop", "clear", "refresh"} {
+			for _, op := range []string{"stop", "clear", "refresh", "refresh+stop"} {
 				for _, at := range []int{1, 2} {
 					if !interval && at > 1 {
 						continue
 					}
 					for _, slow := range []bool{false, true} {
-						if slow && op == "refresh" {
+						if slow && op == "refresh" && interval {
+							continue // (an interval's callbacks run in goroutines of their own)
+						}
+						if op == "refresh+stop" && (!slow || interval) {
 							continue
 						}
 						n++
